@@ -112,7 +112,9 @@ VALID = {
                       ("5s", 5)],
     "identifier": [("abc", "abc"), ("_x1", "_x1"), ("Abc", "Abc")],
     "basic-key": [("Abc", "abc"), ("a-b.c", "a-b.c"), ("x", "x")],
-    "string-list": [("a b  c", ["a", "b", "c"]), ("x", ["x"]), ("", [])],
+    "string-list": [("a b  c", ["a", "b", "c"]), ("x", ["x"]), ("", []),
+                    # words are separated by white space of any kind
+                    ("u\u00a0v\u2003w\u3000x y", ["u", "v", "w", "x", "y"])],
     "inet-address": [("host:80", ("host", 80)), ("Host", ("host", None)),
                      ("8080", ("", 8080)), ("[::1]:80", ("::1", 80)),
                      # a number that is no port is a host name
